@@ -168,7 +168,10 @@ func init() {
 		ID:     "C20",
 		Custom: []string{"partial"},
 		Partial: []string{modPath + "/cmd/minify.minify"},
+		Units:  []string{modPath + "/cmd/minify.SameFile"},
 		Notes: []string{
+			"SameFile (the test that decides whether the original must be renamed to .bak before the destination is truncated) under full contract: both names are resolved through symbolic links (os.Stat events, not os.Lstat) and compared by os.SameFile on exactly those two results; an error of either stat gives (false, err)",
+			"[C20-backup-removed-after-output-complete]: when the backup is removed, the trace ends with io.Copy(fw, ...) returning a nil error, fr.Close(), fw.Close() (optionally the statistics line) - loop 3 carries the invariant that the trace and err are those at loop entry",
 			"ordering obligations on the real minify(t) as site assertions over the ghost trace: the destination is opened (truncated) immediately after all inputs have been opened; the backup <dst>.bak is removed only after a successful copy (io.Copy error nil); on a failed copy the backup is restored by rename",
 			"A-os: rename is atomic; a crash happens between library calls. The full crash invariant (for every instant, original or backup or complete output exists) needs a ghost file system relating path strings and contents and is NOT established; real system-call granularity and multi-task runs are not decided",
 		},
@@ -180,8 +183,9 @@ func init() {
 			modPath + "/json.(*Minifier).Minify", modPath + "/xml.(*Minifier).Minify", modPath + "/svg.(*Minifier).Minify",
 			modPath + "/css.(*Minifier).Minify", modPath + "/html.(*Minifier).Minify", modPath + "/js.(*Minifier).Minify",
 		},
-		Units: []string{modPath + ".(*M).MinifyMimetype", modPath + ".(*M).Match", modPath + ".(*M).Minify"},
+		Units: []string{modPath + ".(*M).MinifyMimetype", modPath + ".(*M).Match", modPath + ".(*M).Minify", modPath + ".(*M).Bytes", modPath + ".(*M).String"},
 		Notes: []string{
+			"(*M).Bytes / String never write the caller's bytes (the reader handed to the minifier exposes no spare capacity; full contracts shared with C10), so calls on the same or adjacent slices share no written location",
 			"sequential premise of the standard argument 'no shared location is written after registration => every interleaving equals the sequential run': (1) frame.store obligations (always claimed): no store in any of the six (*Minifier).Minify methods targets the option struct passed in by the user (css/svg/html prove it through their local copy; F7 in html found and fixed); (2) F obligations decided by the generator's may-write analysis: no function of the seven packages stores to a package-level variable outside init(), none iterates over a map on an output path (allow-list: newRenamer builds a set); (3) lock discipline from the registry contracts (C15): MinifyMimetype/Match take the read lock only, released on every exit",
 			"data-race freedom over all interleavings, races inside dependencies, GOMAXPROCS effects and cross-process determinism are NOT decided (no concurrency logic in this technique)",
 			"A-globals: package-level []byte(\"...\") append bases have cap == len, so append never writes through them",
@@ -193,25 +197,28 @@ func init() {
 		Units: []string{
 			modPath + ".(*writer).Close", modPath + ".(*responseWriter).WriteHeader", modPath + ".(*M).ResponseWriter",
 			modPath + ".(*M).Reader", modPath + ".(*M).Writer", modPath + ".(*M).Bytes", modPath + ".(*M).String",
+			modPath + ".(*M).Reader$go1", modPath + ".(*M).Writer$go1", modPath + ".(*responseWriter).Write$go1",
 		},
 		Custom:  []string{"partial"},
 		Partial: []string{modPath + ".(*responseWriter).Write"},
 		Notes: []string{
 			"sequential contracts on the wrappers of minify.go: writer.Close is idempotent, closes the pipe and THEN waits for the minifier goroutine (trace [Close, Wait]) and returns the minifier's error if set, else the pipe's; responseWriter.WriteHeader deletes Content-Length before writing the status; ResponseWriter derives the fallback media type from the request path extension; Reader/Writer create the pipe and start exactly one goroutine (Writer after wg.Add); responseWriter.Write reads Content-Type before matching and passes writes through only when no minifier matches; Bytes/String hand the whole input to one m.Minify call (C10 contracts)",
-			"a go statement is abstracted as a spawn event plus havoc of all heaps; goroutine bodies, the happens-before of wg.Wait and every scheduling/chunking/pacing-quantified clause ('same bytes for any chunking', 'delivered by the time Close returns') are NOT decided by this technique",
+			"the three goroutine bodies (units <func>$go1: the literal's own Type/Body nodes, captured variables bound like parameters) under sequential contract: the minifier runs exactly once on the pipe with the captured arguments; its error is handed over (pw.CloseWithError(err) in Reader, z.err in Writer/responseWriter.Write) BEFORE the releasing event (pipe close, wg.Done - the last event of the body), so that with (*writer).Close's proved [close-then-wait] and [error] clauses 'Close returns the minifier's error' follows under the (assumed, not verified) happens-before of sync.WaitGroup",
+			"in the spawning function a go statement is abstracted as a spawn event plus havoc of all heaps; the happens-before of wg.Wait and every scheduling/chunking/pacing-quantified clause ('same bytes for any chunking', 'delivered by the time Close returns') are NOT decided by this technique",
 			"chunk independence of the six Minify functions would follow from 'the reader is used exactly once as the argument of parse.NewInput' plus io.ReadAll's contract; that lemma over assumed dependency contracts is not machine-checked here",
 		},
 	})
 	registerProp(&PropSpec{
 		ID:     "C11",
 		Custom: []string{"partial", "fscan"},
-		Partial: []string{modPath + "/html.(*Minifier).Minify", modPath + "/svg.(*Minifier).Minify", modPath + ".UpdateErrorPosition"},
+		Partial: []string{modPath + "/html.(*Minifier).Minify", modPath + "/svg.(*Minifier).Minify", modPath + ".UpdateErrorPosition", modPath + ".DataURI"},
 		Units:  []string{modPath + ".(*M).MinifyMimetype"},
 		Bounded: []BoundedUnit{
 			{Harness: modPath + ".specHarnessDataURIPayload", For: modPath + ".DataURI", QuickN: 3, ThoroughN: 4, What: "data: URIs with no registered minifier pass their payload through unchanged (up to re-encoding); see C18"},
 		},
 		Notes: []string{
 			"call-site obligations (site assertions over the ghost call trace) at the embedded-resource call sites of the real html.Minify (svg, math, raw-text elements, style and on* attributes) and svg.Minify (style text, style CDATA, style attribute): the call carries the prescribed media type (header identity of the package-level media type bytes; for raw text with a type attribute: parse.Mediatype's results), params (inline=1 for attributes and inline SVG; nil for math and defaulted raw text), writer and a reader over exactly the token's bytes; ErrNotExist => the original bytes are written next; any other error => returned through UpdateErrorPosition (which keeps it non-nil), the call's error being the one returned",
+			"DataURI: the recursive m.Bytes call is made on exactly the media type and payload slices that parse.DataURI returned (site assertion)",
 			"dispatch to the registered minifier and 'exactly what it produces' is the trace contract of (*M).MinifyMimetype (C15): the sub-minifier writes into the same writer / the attribute buffer that is then written whole",
 			"A-globals-immutable: package-level variables are not reassigned after init (F obligations of the fscan checker for /repo's packages, assumed for dependencies); A-buffers: writer/reader buffers are heap arrays, never package-level data",
 			"not decided: re-escaping for the host syntax (EscapeAttrVal, A-dep), the media-type selection from the type attribute beyond passing parse.Mediatype's results, CSS url() data URIs, position arithmetic inside UpdateErrorPosition",
